@@ -104,7 +104,7 @@ def value_sets(tier):
         "p": P, "pb": P, "pe": P[: len(P) // 2], "pp": P[:200],
         "sm": S, "sd": S, "def": [1, 2, 10], "defs": ["en", "é", "a b"],
         # other configurations
-        "su": S2 if T else S2[:120], "h": S if T else S2[:120], "hv": S2 if T else S2[:120],
+        "su": S if T else S2[:120], "h": S if T else S2[:120], "hv": S if T else S2[:120],
         "hs": S2 if T else S2[:60], "hsv": S2 if T else S2[:60],
         # round 2: build(method=), websocket rules, host= on a map without host matching, default_subdomain,
         # sort_parameters, rule factories and their nestings
@@ -113,7 +113,8 @@ def value_sets(tier):
         "dx": S if T else S2[:120], "dy": S2 if T else S2[:120], "so": S2 if T else S2[:120],
         "ep.e": S if T else S2[:200], "tpl.show": (S if T else S2[:200]) + ["idx"], "nest": S if T else S2[:200],
         "x.k": [0, 7, 12, 2 ** 64], "tp": P if T else P[:300],
-        "sv": S2 if T else S2[:120], "m.mm": S2 if T else S2[:120], "deep.a.b": S if T else S2[:120],
+        "sv": S if T else S2[:120], "m.mm": S if T else S2[:120], "deep.a.b": S if T else S2[:120],
+        "f.ws": S2 if T else S2[:120], "wst": S2 if T else S2[:120],
     }
 
 
@@ -178,6 +179,9 @@ def rules_factories():
         Subdomain("<user>", [Rule("/sv/<v>", endpoint="sv")]),
         EndpointPrefix("m.", [Submount("/pm", [Rule("/mm/<v>", endpoint="mm", methods=["POST"])])]),
         EndpointPrefix("deep.", [EndpointPrefix("a.", [Subdomain("sd", [Submount("/q", [Rule("/<v>/z", endpoint="b")])])])]),
+        # a websocket rule below factories stays a websocket rule
+        Submount("/wsm", [EndpointPrefix("f.", [Rule("/w/<v>", endpoint="ws", websocket=True)])]),
+        RuleTemplate([Rule("/$n/<v>", endpoint="$n", websocket=True)])(n="wst"),
     ]
 
 
@@ -211,7 +215,7 @@ CONFIGS = {
     "subvar": (rules_subvar, {}, ["su"]),
     "defsub": (rules_defsub, {"default_subdomain": "www"}, ["dx", "dy"]),
     "sorted": (rules_sorted, {"sort_parameters": True}, ["so"]),
-    "fact": (rules_factories, {}, ["ep.e", "tpl.show", "nest", "x.k", "tp", "sv", "m.mm", "deep.a.b"]),
+    "fact": (rules_factories, {}, ["ep.e", "tpl.show", "nest", "x.k", "tp", "sv", "m.mm", "deep.a.b", "f.ws", "wst"]),
     "host": (rules_host, {"host_matching": True}, ["h", "hv", "hs", "hsv"]),
 }
 PATH_EPS = {"p", "pb", "pe", "pp"}
@@ -222,7 +226,7 @@ EXTRAS = [None, {"q": "a b"}, {"q": ["1", "é"], "r": "&="}]
 
 # unit endpoint name -> (werkzeug endpoint, method passed to build() and used by the request)
 EP_REAL = {"m_default": ("m", None), "m_post": ("m", "POST"), "m_put": ("m", "DELETE"), "m.mm": ("m.mm", "POST")}
-WS_EPS = {"w", "wsub"}
+WS_EPS = {"w", "wsub", "f.ws", "wst"}
 # the subdomain the rule is declared on (default: the map's default subdomain)
 EP_SUB = {"sd": "sd", "wsub": "sd", "x.k": "sd", "deep.a.b": "sd", "dy": "api", "sv": "u1", "su": "u1"}
 EXTRA_UNSORTED = {"z": "1", "b": ["y", "x"]}
